@@ -34,6 +34,10 @@ class Ctx:
         self.nsock = 0        # estimate of sockets
         self.sent = []        # (tok, name, type, txref)
         self.cfg = {}
+        self.min_sock = 0     # lower bound of the number of sockets
+        self.min_tx = 0       # lower bound of the number of transmissions (absolute refs below it are valid)
+        self.exact = True     # est_tx is exact so far
+        self.seen = set()     # (name, type) requested so far (a repeat may be served from the cache)
 
     def tag(self):
         self.pkt += 1
@@ -74,13 +78,14 @@ def mutate(cx, kind):
     if kind == "qclass":
         return ["qclass=%s" % r.choice(["3", "255", "4"])]
     if kind == "from":
-        return ["from=%s" % r.choice(["10.6.6.6:53", "10.0.0.9:53", "192.0.2.1:53", "10.0.1.1:53"])]
+        return ["from=%s" % r.choice(["10.6.6.6:53", "10.0.0.9:53", "192.0.2.1:53", "10.0.1.1:53", "[fd00::9]:53",
+                                       "[fd00::1:1]:53", "[::ffff:10.0.0.1]:53"])]
     if kind == "fromsrv":      # the address of another configured server
-        return ["from=10.0.0.%d:53" % r.randint(1, 3)]
+        return ["from=%s:53" % srv_addr(cx, r.randint(0, max(0, nservers(cx) - 1)))]
     if kind == "fromport":     # right address, other port (only the address is compared)
-        return ["from=10.0.0.%d:%d" % (r.randint(1, 2), r.choice([5353, 1, 65535]))]
+        return ["from=%s:%d" % (srv_addr(cx, r.randint(0, max(0, nservers(cx) - 1))), r.choice([5353, 1, 65535]))]
     if kind == "on":
-        return ["on=s%d" % r.randint(0, max(1, cx.nsock))]
+        return ["on=s%d" % (r.randint(0, max(0, cx.min_sock - 1)) if r.random() < 0.6 else r.randint(0, max(0, cx.nsock - 1)))]
     if kind == "qr":
         return ["qr=0"]
     if kind == "noq":
@@ -127,11 +132,13 @@ def txref(cx, prefer=None):
     if prefer is not None and r.random() < 0.8:
         return prefer
     c = r.random()
-    if c < 0.45:
+    if c < 0.45 or cx.min_tx == 0:
         return "xl"
-    if c < 0.65:
+    if c < 0.65 and cx.min_tx >= 3:
         return "xl-%d" % r.randint(1, 2)
-    return "x%d" % r.randint(0, max(0, cx.est_tx))
+    if c < 0.97:
+        return "x%d" % r.randint(0, cx.min_tx - 1)
+    return "x%d" % r.randint(0, cx.est_tx + 1)      # occasionally a reference that may not exist
 
 
 def rsp(cx, ref, muts=(), cookie=None, ttl=None, extra=()):
@@ -164,12 +171,31 @@ def send(cx, name=None, typ=None, edns=None):
     if edns:
         flags.append("edns")
     cx.op("send %d %s IN %s %s" % (cx.tok, name, typ, " ".join(flags)))
-    ref = "x%d" % cx.est_tx
+    key = (name.lower().rstrip("."), typ)
+    cacheable = cx.cfg.get("qcachettl", 0) > 0 and key in cx.seen
+    cx.seen.add(key)
+    if "usevc" in cx.cfg["flags"]:
+        cx.op("proc")          # the TCP connection writes at the first write event
+    if cacheable:
+        cx.exact = False       # may be answered from the cache: no transmission
+    ref = ("x%d" % cx.est_tx) if cx.exact else "xl"
     cx.est_tx += 1
+    if not cacheable:
+        cx.min_tx += 1
     if cx.nsock == 0:
         cx.nsock = 1
+    cx.min_sock = max(cx.min_sock, 1)
     cx.sent.append((cx.tok, name, typ, ref))
     return ref
+
+
+def nservers(cx):
+    return cx.cfg["servers"] + cx.cfg.get("servers6", 0)
+
+
+def srv_addr(cx, i):
+    n4 = cx.cfg["servers"]
+    return "10.0.0.%d" % (i + 1) if i < n4 else "[fd00::%x]" % (i - n4 + 1)
 
 
 def timeout_step(cx, factor=1.0):
@@ -177,6 +203,9 @@ def timeout_step(cx, factor=1.0):
     cx.op("adv %d" % t)
     cx.op("proct")
     cx.est_tx += max(1, len(cx.sent))
+    cx.exact = False
+    if nservers(cx) >= 2:
+        cx.min_sock += 1
     cx.nsock += 1
 
 
@@ -211,6 +240,13 @@ def config(rng, label):
         base = rng.randint(0, 65535)
         lst = [base] * rng.randint(1, 3) + [rng.choice([base, base + 1, base + 1]) & 65535 for _ in range(rng.randint(1, 4))]
         cfg["ids"] = "seed=%d idseq=%d idlist=%s" % (rng.randint(1, 1 << 30), (base + 2) & 65535, ",".join(map(str, lst)))
+    if rng.random() < 0.12:
+        # IPv6 servers (appended after the IPv4 ones)
+        cfg["servers6"] = rng.choice([1, 2])
+        cfg["servers"] = rng.choice([0, 1]) if cfg["servers6"] == 2 else 1
+    if rng.random() < 0.25:
+        # server probes: chance 1 = always probe a failed server once its retry delay has passed
+        cfg["failover"] = "%d,%d" % (rng.choice([1, 1, 2]), rng.choice([0, 500, 2000]))
     if rng.random() < 0.15:
         cfg["rotate"] = 1
     if rng.random() < 0.1:
@@ -222,6 +258,12 @@ def cfg_text(cfg):
     parts = ["qdump=1", "serverstatecb=1", cfg["ids"], "servers=%d" % cfg["servers"],
              "flags=" + ",".join(cfg["flags"]), "timeout=%d" % cfg["timeout"], "tries=%d" % cfg["tries"],
              "qcachettl=%d" % cfg["qcachettl"]]
+    if "servers6" in cfg:
+        parts.append("servers6=%d" % cfg["servers6"])
+    if "failover" in cfg:
+        parts.append("failover=%s" % cfg["failover"])
+    if "domains" in cfg:
+        parts.append("domains=%s ndots=%d" % (cfg["domains"], cfg.get("ndots", 1)))
     if "rotate" in cfg:
         parts.append("rotate=%d" % cfg["rotate"])
     if "udpmaxq" in cfg:
@@ -251,8 +293,8 @@ def sc_basic(cx):
 
 def sc_resend(cx):
     r = cx.rng
-    if cx.cfg["servers"] < 2 and r.random() < 0.8:
-        cx.cfg["servers"] = 2
+    if nservers(cx) < 2 and r.random() < 0.8:
+        cx.cfg["servers"] += 1
     refs = [send(cx) for _ in range(r.randint(1, 2))]
     if r.random() < 0.3:
         forged(cx, refs[0])
@@ -353,6 +395,9 @@ def sc_cache(cx):
     variant = r.choice([name, name.upper(), name.lower(), name + "."])
     cx.tok += 1
     cx.op("send %d %s IN %s %s" % (cx.tok, variant, typ if r.random() < 0.85 else "MX", r.choice(["rd", "rd", "", "rd cd"])))
+    if "usevc" in cx.cfg["flags"]:
+        cx.op("proc")
+    cx.exact = False
     cx.est_tx += 1
     if r.random() < 0.5:
         rsp(cx, "xl")
@@ -361,6 +406,8 @@ def sc_cache(cx):
     cx.op("proct")
     cx.tok += 1
     cx.op("send %d %s IN %s rd" % (cx.tok, name, typ))
+    if "usevc" in cx.cfg["flags"]:
+        cx.op("proc")
     cx.est_tx += 2
     rsp(cx, "xl")
     cx.op("proc")
@@ -411,13 +458,13 @@ def sc_errors(cx):
         elif c < 0.55:
             rsp(cx, txref(cx, a), ["trunc"] + (["from"] if r.random() < 0.3 else []))
         elif c < 0.65:
-            cx.op("zerolen s%d" % r.randint(0, max(0, cx.nsock - 1)))
+            cx.op("zerolen s%d" % r.randint(0, max(0, cx.min_sock - 1)))
         elif c < 0.8:
             hexs = "".join("%02x" % r.randint(0, 255) for _ in range(r.randint(1, 11)))
             if r.random() < 0.5:
-                cx.op("raw s%d %s" % (r.randint(0, max(0, cx.nsock - 1)), hexs))
+                cx.op("raw s%d %s" % (r.randint(0, max(0, cx.min_sock - 1)), hexs))
             else:
-                cx.op("rawfrom s%d 10.6.6.6:53 %s" % (r.randint(0, max(0, cx.nsock - 1)), hexs))
+                cx.op("rawfrom s%d 10.6.6.6:53 %s" % (r.randint(0, max(0, cx.min_sock - 1)), hexs))
         else:
             forged(cx, txref(cx, a))
         cx.op("proc")
@@ -450,9 +497,264 @@ def sc_random(cx):
     cx.op("proc")
 
 
+def sc_reentrant(cx):
+    """requests submitted (or everything cancelled) from inside a completion callback, while the rest of
+    the read batch is still to be processed"""
+    r = cx.rng
+    base = r.randint(0, 65000)
+    cx.cfg["ids"] = "seed=%d idseq=%d" % (r.randint(1, 1 << 30), base)
+    if r.random() < 0.6 and "stayopen" not in cx.cfg["flags"]:
+        cx.cfg["flags"].append("stayopen")
+    name = r.choice(NAMES)
+    t2 = 50 + r.randint(0, 9)
+    kind = r.choice(["send", "send", "send", "cancel"])
+    if kind == "send":
+        n2 = name if r.random() < 0.6 else r.choice(NAMES)
+        cx.op("oncb 1 send,%d,%s,IN,A,rd%s" % (t2, n2, ",edns" if cx.cfg["edns"] else ""))
+    else:
+        cx.op("oncb 1 cancel")
+    a = send(cx, name, "A")
+    b = send(cx) if r.random() < 0.5 else None
+    nq = 2 if b else 1
+    # the batch: forged packets, the genuine answer, then packets aimed at the query that the
+    # callback is about to create (its id is base+nq with sequential ids, same socket)
+    for _ in range(r.randint(0, 2)):
+        forged(cx, a)
+    rsp(cx, a, cookie="echo" if cx.cfg["edns"] and r.random() < 0.5 else None)
+    for _ in range(r.randint(1, 3)):
+        c = r.random()
+        if c < 0.5:
+            rsp(cx, a, ["id+"], extra=[]) if nq == 1 else rsp(cx, a, [], extra=["id=%d" % ((base + nq) & 65535)])
+        elif c < 0.7:
+            rsp(cx, a, [], extra=["id=%d" % ((base + nq) & 65535), "qr=0"])
+        elif c < 0.85:
+            rsp(cx, a)                       # duplicate of the genuine answer
+        else:
+            forged(cx, a)
+    cx.op("proc")
+    cx.exact = False
+    cx.est_tx += 1
+    rsp(cx, "xl")
+    if b is not None:
+        rsp(cx, b)
+    cx.op("proc")
+    cx.op("proc")
+
+
+def sc_wrapped(cx):
+    """ares_query / ares_search / ares_getaddrinfo: the library's own callbacks sit between the accept
+    path and the user; search sends its next candidate from inside such a callback"""
+    r = cx.rng
+    cx.cfg["flags"] = [f for f in cx.cfg["flags"] if f != "usevc"]
+    kind = r.choice(["query", "search", "search", "gai"])
+    cx.tok += 1
+    t = cx.tok
+    if kind == "query":
+        name = r.choice(NAMES)
+        cx.op("query %d %s IN %s" % (t, name, r.choice(["A", "AAAA"])))
+        ncand = 1
+    elif kind == "search":
+        cx.cfg["domains"] = r.choice(["a.test,b.test", "corp.test", "x.test,y.test,z.test"])
+        cx.cfg["ndots"] = r.choice([1, 2])
+        name = r.choice(["host", "www", "db1.int"])
+        cx.op("search %d %s IN A rd" % (t, name))
+        ncand = len(cx.cfg["domains"].split(",")) + 1
+    else:
+        name = r.choice(NAMES)
+        cx.op("gai %d %s 4 0x80" % (t, name))
+        ncand = 1
+    cx.exact = False
+    cx.est_tx += 1
+    cx.min_tx += 1
+    cx.min_sock = max(cx.min_sock, 1)
+    cx.nsock = max(cx.nsock, 1)
+    for i in range(ncand):
+        last = (i == ncand - 1) or r.random() < 0.4
+        for _ in range(r.randint(0, 2)):
+            forged(cx, "xl")
+        if r.random() < 0.3:
+            cx.op("proc")
+        if last:
+            rsp(cx, "xl", cookie="echo" if cx.cfg["edns"] and r.random() < 0.3 else None)
+            # packets queued behind the answer in the same batch
+            if r.random() < 0.4:
+                rsp(cx, "xl", [r.choice(["id+", "dup", "qr", "case1"])])
+            cx.op("proc")
+            break
+        else:
+            rsp(cx, "xl", ["nxdomain"])
+            if r.random() < 0.5:
+                rsp(cx, "xl", ["id+"])          # aimed at the next candidate's id (sequential ids)
+            cx.op("proc")
+            cx.est_tx += 1
+    if r.random() < 0.5:
+        # the same request again: cache
+        cx.tok += 1
+        if kind == "gai":
+            cx.op("gai %d %s 4 0x80" % (cx.tok, name))
+        else:
+            cx.op("%s %d %s IN A%s" % (kind, cx.tok, name, " rd" if kind == "search" else ""))
+        rsp(cx, "xl")
+        cx.op("proc")
+    cx.op("proc")
+
+
+def dns_name(labels):
+    out = b""
+    for lab in labels:
+        out += bytes([len(lab)]) + lab
+    return out + b"\x00"
+
+
+def raw_message(mid, flags, qname_labels, qtype, an_rrs, ar_rrs, qd=1, tail=b""):
+    """hand-built message; RRs are (owner bytes, type, ttl, rdata)"""
+    m = bytes([mid >> 8, mid & 255, flags >> 8, flags & 255, 0, qd, 0, len(an_rrs), 0, 0, 0, len(ar_rrs)])
+    m += dns_name(qname_labels) + bytes([qtype >> 8, qtype & 255, 0, 1])
+    for owner, typ, ttl, rdata in an_rrs + ar_rrs:
+        m += owner + bytes([typ >> 8, typ & 255]) + (b"\x00\x01" if typ != 41 else b"\x04\xd0")
+        m += bytes([(ttl >> 24) & 255, (ttl >> 16) & 255, (ttl >> 8) & 255, ttl & 255])
+        m += bytes([len(rdata) >> 8, len(rdata) & 255]) + rdata
+    return m + tail
+
+
+def sc_rawmsg(cx):
+    """hand-crafted wire messages: compression pointers (valid, forward, into the own name), several
+    OPT options incl. duplicate cookie options, a question that differs only in an escaped
+    character, trailing bytes, counts that lie"""
+    r = cx.rng
+    base = r.randint(0, 65000)
+    cx.cfg["ids"] = "seed=%d idseq=%d" % (r.randint(1, 1 << 30), base)
+    cx.cfg["flags"] = [f for f in cx.cfg["flags"] if f not in ("dns0x20", "usevc")]
+    if "stayopen" not in cx.cfg["flags"]:
+        cx.cfg["flags"].append("stayopen")
+    name = r.choice(["a.b.example", "www.example.com", "x-1.test"])
+    labels = [l.encode() for l in name.split(".")]
+    a = send(cx, name, "A")
+    mid = base
+
+    def tagrd():
+        cx.pkt += 1
+        n = cx.pkt
+        return bytes([11, (n >> 16) & 255, (n >> 8) & 255, n & 255])
+
+    def arec(owner=b"\xc0\x0c", ttl=60):
+        return (owner, 1, ttl, tagrd())
+
+    def opt(options):
+        rd = b""
+        for code, data in options:
+            rd += bytes([code >> 8, code & 255, len(data) >> 8, len(data) & 255]) + data
+        return (b"\x00", 41, 0, rd)
+
+    for _ in range(r.randint(2, 5)):
+        c = r.choice(["ptr-own", "ptr-forward", "ptr-self", "ptr-chain", "opts", "dupcookie-badlast", "dupcookie-goodlast",
+                      "emptycookie", "emptycookie-first",
+                      "escaped-dot", "escaped-label", "nonprint", "trailing", "liecount", "uncompressed", "label64"])
+        flags = 0x8180
+        msg = None
+        if c == "ptr-own":            # ordinary: owner = pointer to the question name
+            msg = raw_message(mid, flags, labels, 1, [arec()], [])
+        elif c == "uncompressed":
+            msg = raw_message(mid, flags, labels, 1, [arec(dns_name(labels))], [])
+        elif c == "ptr-forward":      # owner points forward (to its own rdata)
+            msg = raw_message(mid, flags, labels, 1, [arec(b"\xc0\x40")], [])
+        elif c == "ptr-self":         # owner = label + pointer into itself
+            off = 12 + len(dns_name(labels)) + 4
+            msg = raw_message(mid, flags, labels, 1, [arec(b"\x01a" + bytes([0xC0, off]))], [])
+        elif c == "ptr-chain":        # second RR's owner points to the first RR's owner pointer
+            off = 12 + len(dns_name(labels)) + 4
+            msg = raw_message(mid, flags, labels, 1, [arec(), arec(bytes([0xC0, off]))], [])
+        elif c == "opts":             # several options, unknown codes, no cookie
+            msg = raw_message(mid, flags, labels, 1, [arec()], [opt([(3, b"nsid"), (65001, b""), (12, b"\x00" * 4)])])
+        elif c == "dupcookie-badlast":
+            msg = raw_message(mid, flags, labels, 1, [arec()], [opt([(10, bytes(range(16))), (10, b"\x01\x02\x03")])])
+        elif c == "dupcookie-goodlast":
+            msg = raw_message(mid, flags, labels, 1, [arec()], [opt([(10, b"\x01\x02\x03"), (10, bytes(range(16)))])])
+        elif c == "emptycookie":
+            msg = raw_message(mid, flags, labels, 1, [arec()], [opt([(10, b"")])])
+        elif c == "emptycookie-first":
+            msg = raw_message(mid, flags, labels, 1, [arec()], [opt([(10, b""), (10, bytes(range(16)))])])
+        elif c == "escaped-dot":      # first two labels fused into one label that contains a dot
+            if len(labels) >= 3:
+                fused = [labels[0] + b"." + labels[1]] + labels[2:]
+            else:
+                fused = [labels[0] + b"." + labels[1]]
+            msg = raw_message(mid, flags, fused, 1, [arec()], [])
+        elif c == "escaped-label":    # a backslash in the label
+            msg = raw_message(mid, flags, [labels[0] + b"\\"] + labels[1:], 1, [arec()], [])
+        elif c == "nonprint":         # same letters, one control character appended
+            msg = raw_message(mid, flags, [labels[0] + b"\x07"] + labels[1:], 1, [arec()], [])
+        elif c == "trailing":
+            msg = raw_message(mid, flags, labels, 1, [arec()], [], tail=b"\xde\xad\xbe\xef")
+        elif c == "liecount":         # ANCOUNT 2, one RR present
+            m1 = raw_message(mid, flags, labels, 1, [arec()], [])
+            msg = m1[:7] + b"\x02" + m1[8:]
+        elif c == "label64":          # label length 64 = reserved bit pattern 01
+            msg = raw_message(mid, flags, [b"a" * 64] + labels[1:], 1, [arec()], [])
+        if r.random() < 0.15:
+            cx.op("rawfrom s0 10.6.6.6:53 %s" % msg.hex())
+        else:
+            cx.op("raw s0 %s" % msg.hex())
+        if r.random() < 0.5:
+            cx.op("proc")
+    cx.op("proc")
+    rsp(cx, "xl")
+    cx.op("proc")
+    cx.op("proc")
+
+
+def sc_probe(cx):
+    """server probes: after a server failed and its retry delay has passed, the next fresh query
+    makes the library re-ask the same question on the failed server under an id of its own; the
+    probe's answer marks the server good and enters the cache although no user callback sees it"""
+    r = cx.rng
+    if nservers(cx) < 2:
+        cx.cfg["servers"] += 1
+    cx.cfg["failover"] = "1,%d" % r.choice([0, 0, 500])
+    cx.cfg["flags"] = [f for f in cx.cfg["flags"] if f != "usevc"] if r.random() < 0.8 else cx.cfg["flags"]
+    if cx.cfg["qcachettl"] == 0 and r.random() < 0.7:
+        cx.cfg["qcachettl"] = 3600
+    cx.cfg["tries"] = max(2, cx.cfg["tries"])
+    a = send(cx)
+    if r.random() < 0.5:
+        timeout_step(cx)                       # server 0 fails by time-out
+    else:
+        rsp(cx, a, ["servfail"])               # ... or by SERVFAIL
+        cx.op("proc")
+        cx.exact = False
+        cx.est_tx += 1
+    rsp(cx, "xl")                              # the other server answers
+    cx.op("proc")
+    cx.op("adv %d" % r.choice([600, 1000, 6000]))
+    name = r.choice(NAMES)
+    b = send(cx, name, "A")                    # fresh query: triggers the probe (2 transmissions)
+    cx.est_tx += 1
+    order = r.choice(["probe-first", "query-first", "probe-only", "forged"])
+    if order == "forged":
+        rsp(cx, "xl", [r.choice(["id+", "from", "qr", "case1", "qname", "cookiebad"])])
+        rsp(cx, "xl-1", [r.choice(["id+", "from", "on", "qtype"])])
+        cx.op("proc")
+    if order in ("probe-first", "probe-only", "forged"):
+        rsp(cx, "xl")                          # the probe is the later transmission
+        cx.op("proc")
+    if order != "probe-only":
+        rsp(cx, "xl-1")
+        cx.op("proc")
+    if order == "query-first":
+        rsp(cx, "xl")
+        cx.op("proc")
+    # the same question again: served from the cache, possibly with the probe's answer
+    cx.tok += 1
+    cx.op("send %d %s IN A rd" % (cx.tok, name))
+    cx.exact = False
+    rsp(cx, "xl")
+    cx.op("proc")
+    cx.op("proc")
+
+
 SCENARIOS = [("basic", sc_basic, 20), ("resend", sc_resend, 16), ("tcpup", sc_tcpup, 10), ("done", sc_done, 8),
              ("idreuse", sc_idreuse, 8), ("cache", sc_cache, 10), ("cookie", sc_cookie, 12), ("errors", sc_errors, 8),
-             ("random", sc_random, 8)]
+             ("random", sc_random, 8), ("reentrant", sc_reentrant, 8), ("wrapped", sc_wrapped, 10), ("rawmsg", sc_rawmsg, 8), ("probe", sc_probe, 8)]
 
 
 def gen_case(rng):
